@@ -32,6 +32,7 @@ type parseResult struct {
 	panicked string
 }
 
+var reMissedInput = regexp.MustCompile(`[ (,=]\$[A-Za-z_][A-Za-z0-9_]*\.[A-Za-z_][A-Za-z0-9_]*`)
 var rePos = regexp.MustCompile(`^cannot parse expression: (?:line (\d+), )?column (\d+): (.*)$`)
 
 type kindPat struct {
@@ -297,7 +298,34 @@ func parseOracles(q string, r parseResult, shifts []int, add func(violation)) {
 			}
 			off = end
 		}
-	} else if r.pos {
+		// an expression that stands outside every literal and comment, after a blank, '(' , ',' or '=',
+		// is recognised: it is not left in the pass-through text (the parser's idea of where a
+		// literal ends would otherwise differ from SQL's)
+		off = 0
+		for _, s := range segs {
+			if s.kind == "B" {
+				for _, m := range reMissedInput.FindAllStringIndex(s.raw, -1) {
+					a := off + m[0] + 1
+					inside := false
+					for _, rg := range regions {
+						if rg[0] <= a && a < rg[1] {
+							inside = true
+						}
+					}
+					if !inside {
+						v("C02", "expression-outside-literals-left-in-pass-through-text", fmt.Sprintf("%q at byte %d", q[a:off+m[1]], a))
+						v("C01", "expression-outside-literals-left-in-pass-through-text", fmt.Sprintf("%q at byte %d", q[a:off+m[1]], a))
+					}
+				}
+			}
+			off += len(s.raw)
+		}
+	} else if r.kind == "missing-quote" {
+		if _, open := lexRegions(q); !open {
+			v("C02", "closed-literal-reported-as-unclosed", fmt.Sprintf("line %d col %d", r.line, r.col))
+		}
+	}
+	if !r.ok && r.pos {
 		// C19 in range
 		n, lens := lineInfo(q)
 		if r.col < 1 || r.line < 1 || r.line > n || r.col > lens[r.line-1]+1 {
